@@ -1,0 +1,51 @@
+//! Verification hooks, compiled only with the `verif-hooks` cargo feature.
+//!
+//! Nothing in here changes behaviour unless a harness installs a decision
+//! source on the current thread:
+//!
+//! * [`sched_point`] is a named scheduling point. Without an installed
+//!   decision source it returns immediately; with one it yields to the tokio
+//!   scheduler as many times as the source says, which on a current-thread
+//!   runtime forces a pre-emption at exactly that point.
+//! * [`pad_draw`] is the random draw of the padding scheme. Without an
+//!   installed source it is `rand::random_range`, as in the normal build.
+
+use std::cell::RefCell;
+
+type SchedFn = Box<dyn FnMut(&'static str) -> u32>;
+type DrawFn = Box<dyn FnMut(i64, i64) -> i64>;
+
+thread_local! {
+    static SCHED: RefCell<Option<SchedFn>> = const { RefCell::new(None) };
+    static DRAW: RefCell<Option<DrawFn>> = const { RefCell::new(None) };
+}
+
+/// Install (or remove, with `None`) the scheduling decision source of this thread.
+pub fn set_sched_source(f: Option<SchedFn>) {
+    SCHED.with(|s| *s.borrow_mut() = f);
+}
+
+/// Install (or remove, with `None`) the padding draw source of this thread.
+pub fn set_draw_source(f: Option<DrawFn>) {
+    DRAW.with(|s| *s.borrow_mut() = f);
+}
+
+/// Named scheduling point: yields 0..n times as decided by the installed source.
+pub async fn sched_point(name: &'static str) {
+    let n = SCHED.with(|s| match s.borrow_mut().as_mut() {
+        Some(f) => f(name),
+        None => 0,
+    });
+    for _ in 0..n {
+        tokio::task::yield_now().await;
+    }
+}
+
+/// Draw a padding size in `min..=max` (both inclusive, `min <= max`).
+pub fn pad_draw(min: i64, max: i64) -> i64 {
+    let forced = DRAW.with(|s| s.borrow_mut().as_mut().map(|f| f(min, max)));
+    match forced {
+        Some(v) => v.clamp(min, max),
+        None => rand::random_range(min..=max),
+    }
+}
